@@ -265,6 +265,11 @@ func (dec *xmlDecoder) decodeXML(root *xmlNode) error {
 			break
 		}
 
+		if _, isEnd := t.(xml.EndElement); elem == nil && !isEnd {
+			// an end tag without a start tag has closed the document itself
+			return fmt.Errorf("invalid XML: content after an unmatched end tag")
+		}
+
 		switch se := t.(type) {
 		case xml.StartElement:
 			log.Debug("start element %v", se.Name.Local)
